@@ -11,6 +11,7 @@
      crystal <id> <name> a b c alpha beta gamma volume natoms {Z fraction x y z}   -> def <id>
      builtin <id> <name>            the library's own entry (Crystal_GetCrystal)      -> def <id> | def-missing
      dump                           every built-in crystal in `crystal` syntax (ids 0..), then `end`
+     allsafe <0|1>                  1: the oracle may call the library with any Miller indices (tree has repair C13-5)  -> def allsafe
      zeros                          knots of the Fi / Fii tables whose ordinate is exactly 0: `zeros {fi|fii}:Z:<E>...`
    calls                                                      answer
      vol   C S                      Crystal_UnitCellVolume    ok <v> <slot>
@@ -48,6 +49,7 @@ xrlComplex c_mul(xrlComplex x, xrlComplex y);
 
 #define MAXC 4096
 static Crystal_Struct *cr[MAXC];
+static int all_miller_safe = 0;   /* `allsafe 1`: the tree computes the cross terms of Crystal_dSpacing in double (repair C13-5) */
 
 static double pd(const char *s) { uint64_t b = strtoull(s + 1, NULL, 16); double d; memcpy(&d, &b, 8); return d; }
 static void pr_d(double d) { uint64_t b; memcpy(&b, &d, 8); printf(" x%016llx", (unsigned long long)b); }
@@ -109,6 +111,8 @@ int main(void) {
       int id = atoi(t[1]);
       Crystal_Struct *c = Crystal_GetCrystal(t[2], NULL, NULL);
       if (!c || id < 0 || id >= MAXC) printf("def-missing\n"); else { cr[id] = c; printf("def %d\n", id); }
+    } else if (!strcmp(op, "allsafe") && n == 2) {
+      all_miller_safe = atoi(t[1]); printf("def allsafe\n");
     } else if (!strcmp(op, "dump")) {
       int nc = 0; char **names = Crystal_GetCrystalsList(NULL, &nc, NULL);
       for (int i = 0; i < nc; i++) { Crystal_Struct *c = Crystal_GetCrystal(names[i], NULL, NULL); if (c) pr_crystal(i, c); }
@@ -154,7 +158,7 @@ int main(void) {
     } else if (!strcmp(op, "aux") && n == 7) {
       Crystal_Struct *c = C(t[1]); double E = pd(t[2]), q = 0, d = 0, th = 0; int i = atoi(t[3]), j = atoi(t[4]), k = atoi(t[5]);
       /* int products 2*i*j of Crystal_dSpacing overflow for |i*j| >= 2^30: keep the oracle calls inside the safe range */
-      int safe = abs(i) <= 32767 && abs(j) <= 32767 && abs(k) <= 32767 && i != -2147483647 - 1 && j != -2147483647 - 1 && k != -2147483647 - 1;
+      int safe = all_miller_safe || (i >= -32767 && i <= 32767 && j >= -32767 && j <= 32767 && k >= -32767 && k <= 32767);
       printf("aux");
       if (c && safe) { d = Crystal_dSpacing(c, i, j, k, NULL); th = Bragg_angle(c, E, i, j, k, NULL); }
       if (safe) q = Q_scattering_amplitude(c, E, i, j, k, pd(t[6]), NULL);
